@@ -53,6 +53,13 @@ def requests(tier):
             for k in ((5, 5), (1, 7), (6, 2), (2, 6)):
                 for acc in ACCS:
                     reqs.append(dict(kind=kind, depth=17, blk=16, slices=slice_lists(17)[0], acc=acc, dt="int8", per_channel=False, wzp=0, k=k, ic=8, dil=dil, wseed=0, bseed=0))
+    # TRANSPOSE_CONV (Conv2DBackpropInputSwitchedBias): the kernel is mirrored in both spatial axes before encoding - for every depth slice,
+    # with kernels that are not their own mirror image
+    for depth in (17, 40):
+        for sl in slice_lists(depth):
+            for acc in ACCS:
+                for k in ((3, 3), (2, 4)):
+                    reqs.append(dict(kind="conv", tconv=True, depth=depth, blk=16, slices=sl, acc=acc, dt="int8", per_channel=False, wzp=0, k=k, ic=8, dil=(1, 1), wseed=0, bseed=0))
     # rounding ties: every channel's multiplier is exactly k + 0.5 before rounding (int8/int16: the double-product derivation)
     for kind in ("conv", "depthwise"):
         for acc in ACCS:
@@ -125,11 +132,15 @@ def make_op(req, shared=None):
     ofm = Tensor([1, 8, 8, depth] if kind != "fc" else [1, depth], dts[req["dt"]], "ofm")
     ofm.quantization = QuantizationParameters(scale_f32=_scales(req, 0)[2], zero_point=0)
     optype = {"conv": Op.Conv2DBias, "depthwise": Op.DepthwiseConv2DBias, "fc": Op.FullyConnected}[kind]
+    if req.get("tconv"):
+        optype = Op.Conv2DBackpropInputSwitchedBias
     op = Operation(Op.Conv2DBias if req.get("as_conv") else optype, "op")
     if req.get("as_conv"):
         op.type = Op.FullyConnected  # as convert_conv_to_fc leaves it: type rewritten, original type kept
     op.add_input_tensor(ifm)
     op.add_input_tensor(wt)
+    if req.get("tconv"):  # operand order after the rewrite: IFM, weights, output shape, bias
+        op.add_input_tensor(create_const_tensor("oshape", [4], DataType.int32, [1, 8, 8, depth]))
     op.add_input_tensor(bt)
     op.set_output_tensor(ofm)
     kern = Kernel(kw, kh, 1, 1, req["dil"][0], req["dil"][1])
@@ -183,6 +194,8 @@ def judge(req, w, s, wt, bt):
     if req["kind"] == "fc":
         wvals = wvals.reshape(1, 1, *wvals.shape)
     wz = wvals - req["wzp"]
+    if req.get("tconv"):
+        wz = np.flip(wz, axis=(0, 1))  # the hardware convolves the upscaled IFM with the mirrored kernel
     bvals = np.asarray(bt.values).astype(np.int64)
     kh, kw = req["k"]
     # traversal decision (A3 / encoder rule): part-kernel-first when it utilises the MACs at least as well, or IFM depth <= 8
@@ -377,7 +390,7 @@ def run(ctx):
     for n, bad in pmap(_req_shard, [reqs[i:i + 24] for i in range(0, len(reqs), 24)]):
         ctx.count("requests", n)
         for req, probs in bad:
-            key = "encode|%s|%s|cores%d|%s" % (req["kind"], req["dt"], ACCS[req["acc"]], probs[0].split("(")[0].split(":")[0][:50])
+            key = "encode|%s|%s|cores%d|%s" % (req["kind"] + ("-transposed" if req.get("tconv") else ""), req["dt"], ACCS[req["acc"]], probs[0].split("(")[0].split(":")[0][:50])
             ctx.violation(key, "%s  [request %s]" % ("; ".join(probs[:3]), req), dict(req=req))
     # histories
     A = history_alphabet()
